@@ -17,15 +17,17 @@ WHAT = {
  "C11": ("watchdog clauses of the timer check for all clock and timeout values", "C11"),
  "C12": ("reconnect policy iff-theorem, DPR handling", "C12"),
  "C13": ("removal lemmas for the connection/socket tables and peer records", "C13"),
- "C14": ("worker/slot bookkeeping model of the threading application and fault scenarios", "C14"),
- "C15": ("write-path interleaving model (byte stream = FIFO concatenation)", "C15"),
- "C16": ("identifier generators: sequential laws and distinctness under every interleaving", "C16"),
+ "C14": ("node + threading-application model: no worker dies, every slot accounted for, consumers alive — for every sequence of operations (faults, handler outcomes, consumer/handler schedules)", "C14"),
+ "C15": ("write path as an interleaving system of queueing threads, writer and I/O loop (program extracted from the running code): accepted bytes are always a prefix of, finally equal to, the FIFO concatenation, for every schedule, partial write and write error", "C15"),
+ "C16": ("identifier generators: never zero, wrap to 1, distinct within the period, start-value and session-id format laws; for the line skeleton extracted from the source, distinctness under every schedule of any number of threads", "C16"),
  "C17": ("retransmission window: reject iff answered-within-window and T", "C17"),
  "C18": ("shutdown clauses on the serialised node model", "C18"),
  "C19": ("retained-state bounds at quiescence", "C19"),
  "C20": ("answer class pairing (kernel-checked) and header law", "C20"),
 }
-PARTIAL = {"C14": "worker-thread liveness, join timing and faults inside a frame write are runtime behaviour: the model carries the bookkeeping and exception flow, the harness checks thread-stub liveness",
+PARTIAL = {"C14": "OS-thread liveness and join timing are runtime behaviour: the model carries every place where an exception can escape a worker and the slot bookkeeping; the harness runs the real code with inert thread stubs and checks their liveness and a reconnect-and-serve probe against a fresh node",
+           "C15": "preemption points are the source lines that touch shared state (local lines run with the preceding shared line); a line such as `buf += x` is one step — bytecode-level interleavings inside one line are not modelled (the lock that covers them is, as an atom)",
+           "C16": "interleavings at source-line granularity of the extracted skeleton; bytecode-level interleavings inside one line are not modelled",
            "C18": "stop() racing the I/O thread on node.connections and join timeouts are schedule/runtime behaviour; stop is modelled as serialised events",
            "C10": "the blocking Event.wait and the timeout/late-answer race are modelled as the two atomic orders",
            "C04": "wall-clock linearity is measured as supporting evidence only"}
